@@ -21,6 +21,7 @@ Trace == ndJsonDeserialize(IOEnv.TRACE_FILE)
 VARIABLE i
 Has(ev, f) == f \in DOMAIN ev
 
+Deterministic == {"diff", "diff_notebooks", "patch", "patch_notebook", "decide_merge"}
 SameArgs(x, y) == Len(x) = Len(y) /\ \A k \in 1..Len(x) : Eq(x[k], y[k])
 
 Clauses(ev) ==
@@ -31,7 +32,10 @@ Clauses(ev) ==
     <<"ArgsUnchangedAfterResultMutation", Has(ev, "scribbled") => SameArgs(ev.before, ev.scribbled)>>,
     \* the same objects can be used again (equality of the two results is not required: conflict
     \* marker cells get fresh random ids on every merge)
-    <<"Recomputable", Has(ev, "again") => ev.again.t # "x">>
+    <<"Recomputable", Has(ev, "again") => ev.again.t # "x">>,
+    \* ... and for the functions that draw no random ids the result is the same as before the first result was
+    \* modified (a result that shares structure with a cache or with a module-level table would differ)
+    <<"RecomputedSame", (Has(ev, "again") /\ Has(ev, "result") /\ ev.fn \in Deterministic) => Eq(ev.again, ev.result)>>
   >>
 
 Report(ev) ==
